@@ -3,903 +3,14 @@
 #![allow(unused_macros, unused_imports, unused_variables, unused_mut)]
 #![allow(unstable_name_collisions)]
 
-use bnum::cast::{As, CastFrom};
-use bnum::BTryFrom;
-use bnum_verif_harness::gen::{self, Rng, B};
-use bnum_verif_harness::*;
-
-fn label<T: Bn>() -> &'static str {
-    Box::leak(format!("{}x{}", T::DT, T::W).into_boxed_str())
-}
-
-fn res<T: Bn, E>(r: Result<T, E>) -> Out {
-    match r {
-        Ok(v) => Out::Ok_(v.enc()),
-        Err(_) => Out::Err_("TryFromIntError".to_string()),
-    }
-}
-
-struct Ctx {
-    cli: Cli,
-    sink: Sink,
-}
-thread_local! {
-    static CTX: std::cell::RefCell<Option<Ctx>> = std::cell::RefCell::new(None);
-}
-fn with_ctx<F: FnOnce(&mut Ctx)>(f: F) {
-    CTX.with(|c| f(c.borrow_mut().as_mut().unwrap()))
-}
-
-/// source values for a (source width, target type) pair: boundary values of the source, the target's
-/// MIN/MAX and their neighbours embedded in the source width, sign-extension patterns, random
-fn pair_values(r: &mut Rng, sn: usize, dw: u32, count: usize) -> Vec<B> {
-    let mut v: Vec<B> = Vec::new();
-    let sw = 8 * sn;
-    if count >= 40 && sn == 1 {
-        // thorough tier: every value of an 8-bit source
-        return (0..=255u8).map(|x| vec![x]).collect();
-    }
-    v.push(gen::zero(sn));
-    v.push(gen::small(sn, 1));
-    v.push(gen::ones(sn));
-    v.push(gen::smin(sn));
-    v.push(gen::smax(sn));
-    let dw = dw as usize;
-    for k in [dw, dw - 1] {
-        if k < sw {
-            let p = gen::pow2(sn, k);
-            v.push(p.clone()); // MAX + 1 of the target
-            v.push(gen::sub1(&p)); // MAX of the target
-            v.push(gen::negate(&p)); // MIN of the signed target (k = dw - 1)
-            v.push(gen::sub1(&gen::negate(&p))); // MIN - 1
-            v.push(gen::add1(&gen::negate(&p)));
-            v.push(gen::add1(&p));
-        }
-    }
-    // sparse digit patterns: a small low digit under upper digits that are all equal (1, MAX, sign bit only, 2^8),
-    // at every digit granularity -- representability tests that fold or combine the upper digits
-    for g in [1usize, 2, 4, 8] {
-        if 2 * g <= sn && (count >= 40 || r.below(2) == 0) {
-            let mut ds: Vec<Vec<u8>> = vec![{ let mut d = vec![0u8; g]; d[0] = 1; d }, vec![0xff; g], { let mut d = vec![0u8; g]; d[g - 1] = 0x80; d }];
-            // upper digits that are multiples of 2^8, 2^16, 2^32 (zero when truncated to a narrower primitive),
-            // and their complements (equal to sign padding in the low bits only)
-            for j in [1usize, 2, 4] {
-                if g > j {
-                    let mut d = vec![0u8; g];
-                    d[j] = 1;
-                    ds.push(d.clone());
-                    ds.push(d.iter().map(|b| !b).collect());
-                }
-            }
-            for d in ds {
-                for upto in [sn / g, 3.min(sn / g)] {
-                    let mut x = vec![0u8; sn];
-                    x[0] = 5;
-                    for k in 1..upto {
-                        x[k * g..(k + 1) * g].copy_from_slice(&d);
-                    }
-                    v.push(x);
-                }
-            }
-        }
-    }
-    // bounds of the primitive integers inside the source (boundaries of fast paths through primitives):
-    // +-2^k and neighbours for k at the primitive widths; a random half of them in the quick tier
-    for k in [7usize, 8, 15, 16, 31, 32, 63, 64, 127, 128] {
-        if k + 1 < sw && (count >= 40 || r.below(2) == 0) {
-            let p = gen::pow2(sn, k);
-            v.push(p.clone());
-            v.push(gen::sub1(&p));
-            v.push(gen::negate(&p));
-            v.push(gen::sub1(&gen::negate(&p)));
-            v.push(gen::add1(&gen::negate(&p)));
-        }
-    }
-    let bnd = gen::boundary(sn);
-    let count = count.max(v.len() + 3);
-    while v.len() < count {
-        v.push(gen::any(r, sn, &bnd));
-    }
-    v.sort();
-    v.dedup();
-    v
-}
-
-// ----------------------------------------------------------------------------------------------
-// bnum x bnum pairs
-
-fn pair_fn<S, D>()
-where
-    S: Bn,
-    D: Bn + CastFrom<S> + BTryFrom<S>,
-{
-    with_ctx(|c| {
-        if !c.cli.only_width.map_or(true, |x| x == S::W) {
-            return;
-        }
-        let thorough = c.cli.tier == "thorough";
-        let prop = c.cli.prop.clone();
-        let sn = (S::W / 8) as usize;
-        let mut r = Rng::new(c.cli.seed ^ ((S::W as u64) << 40) ^ ((D::W as u64) << 20) ^ (S::S as u64) << 1 ^ (D::S as u64));
-        let vals = pair_values(&mut r, sn, D::W, if thorough { 60 } else { 14 });
-        let mut rec = Rec::new();
-        let ty = Arg::Int { w: D::W, s: D::S, v: vec![] };
-        for b in vals.iter() {
-            let x = S::dec(b);
-            if prop == "C09" || prop == "C16" {
-                rec.sem = "C09";
-                rec.fam("as", vec![int(&x), ty.clone()]);
-                rec.form("as_", || val(As::as_::<D>(x)));
-                rec.form("cast_from", || val(<D as CastFrom<S>>::cast_from(x)));
-            }
-            if prop == "C13" {
-                rec.sem = "C13";
-                rec.ev("btryfrom", vec![int(&x), ty.clone()], || res(<D as BTryFrom<S>>::try_from(x)));
-            }
-        }
-        let lab: &'static str = Box::leak(format!("{}>{}", label::<S>(), label::<D>()).into_boxed_str());
-        c.sink.merge(S::W, S::S, "bnum", vec![(lab, rec)]);
-    });
-}
-/// num_traits::AsPrimitive between two bnum integers of one digit family (the impl exists per family only)
-fn asprim_fn<S, D>()
-where
-    S: Bn + num_traits::AsPrimitive<D>,
-    D: Bn + CastFrom<S> + Copy + 'static,
-{
-    with_ctx(|c| {
-        if !c.cli.only_width.map_or(true, |x| x == S::W) {
-            return;
-        }
-        let thorough = c.cli.tier == "thorough";
-        let sn = (S::W / 8) as usize;
-        let mut r = Rng::new(c.cli.seed ^ ((S::W as u64) << 41) ^ ((D::W as u64) << 21) ^ (S::S as u64) << 1 ^ (D::S as u64) ^ 0xA5);
-        let vals = pair_values(&mut r, sn, D::W, if thorough { 60 } else { 14 });
-        let mut rec = Rec::new();
-        let ty = Arg::Int { w: D::W, s: D::S, v: vec![] };
-        rec.sem = "C09";
-        for b in vals.iter() {
-            let x = S::dec(b);
-            rec.fam("as", vec![int(&x), ty.clone()]);
-            rec.form("asprimitive", || val(<S as num_traits::AsPrimitive<D>>::as_(x)));
-            rec.form("cast_from", || val(<D as CastFrom<S>>::cast_from(x)));
-        }
-        let lab: &'static str = Box::leak(format!("{}>{}:asprim", label::<S>(), label::<D>()).into_boxed_str());
-        c.sink.merge(S::W, S::S, "bnum", vec![(lab, rec)]);
-    });
-}
-macro_rules! asprim_family {
-    ($($U:ident, $I:ident);*) => {$(
-        asprim_fn::<$U<1>, $U<3>>();
-        asprim_fn::<$U<3>, $I<2>>();
-        asprim_fn::<$I<2>, $U<5>>();
-        asprim_fn::<$I<5>, $I<1>>();
-        asprim_fn::<$U<4>, $I<4>>();
-        asprim_fn::<$I<3>, $U<3>>();
-        asprim_fn::<$I<1>, $I<9>>();
-        asprim_fn::<$U<9>, $U<2>>();
-    )*};
-}
-macro_rules! pair_body {
-    ($S:ty, $D:ty) => {
-        pair_fn::<$S, $D>();
+macro_rules! the_matrix {
+    ($m:ident) => {
+        bnum_verif_harness::for_matrix!($m);
     };
 }
-
-macro_rules! for_pairs {
-    ($body:ident; [$($S:ty),*]; $D:tt) => { $( for_pairs!(@inner $body; $S; $D); )* };
-    (@inner $body:ident; $S:ty; [$($D:ty),*]) => { $( $body!($S, $D); )* };
-}
-
-macro_rules! pair_types {
-    ($mac:ident; $body:ident) => {
-        $mac!($body;
-            [BUintD8<1>, BIntD8<1>, BUintD8<2>, BIntD8<2>, BUintD16<1>, BIntD16<1>, BUintD8<3>, BIntD8<3>, BUintD16<2>, BIntD16<2>,
-             BUintD32<1>, BIntD32<1>, BUintD8<5>, BIntD8<5>, BUintD16<3>, BIntD16<3>, BUint<1>, BInt<1>, BUintD32<2>, BIntD32<2>,
-             BUintD8<9>, BIntD8<9>, BUintD32<3>, BIntD32<3>, BUint<2>, BInt<2>, BUintD8<17>, BIntD8<17>, BUintD16<9>, BIntD16<9>,
-             BUintD32<5>, BIntD32<5>, BUint<3>, BInt<3>];
-            [BUintD8<1>, BIntD8<1>, BUintD8<2>, BIntD8<2>, BUintD16<1>, BIntD16<1>, BUintD8<3>, BIntD8<3>, BUintD16<2>, BIntD16<2>,
-             BUintD32<1>, BIntD32<1>, BUintD8<5>, BIntD8<5>, BUintD16<3>, BIntD16<3>, BUint<1>, BInt<1>, BUintD32<2>, BIntD32<2>,
-             BUintD8<9>, BIntD8<9>, BUintD32<3>, BIntD32<3>, BUint<2>, BInt<2>, BUintD8<17>, BIntD8<17>, BUintD16<9>, BIntD16<9>,
-             BUintD32<5>, BIntD32<5>, BUint<3>, BInt<3>]);
+macro_rules! the_giants {
+    ($m:ident) => {
+        bnum_verif_harness::for_giants!($m);
     };
 }
-
-// ----------------------------------------------------------------------------------------------
-// bnum x primitive
-
-macro_rules! prim_list {
-    ($mac:ident; $($args:tt)*) => {
-        $mac!($($args)*; u8, 8, false; u16, 16, false; u32, 32, false; u64, 64, false; u128, 128, false; usize, 64, false;
-                         i8, 8, true; i16, 16, true; i32, 32, true; i64, 64, true; i128, 128, true; isize, 64, true);
-    };
-}
-
-fn prim_enc_u(x: u128, w: u32) -> Vec<u8> {
-    x.to_le_bytes()[..(w / 8) as usize].to_vec()
-}
-
-macro_rules! bnum_to_prims {
-    ($rec:expr, $T:ty, $x:expr, $prop:expr; $($p:ident, $pw:literal, $ps:tt);*) => {
-        $(
-            {
-                let x = $x;
-                let ty = Arg::Int { w: $pw, s: $ps, v: vec![] };
-                if $prop == "C09" {
-                    $rec.sem = "C09";
-                    $rec.fam("as", vec![int(&x), ty.clone(), tag(stringify!($p))]);
-                    $rec.form("as_", || Out::Val(prim_enc_u(As::as_::<$p>(x) as u128, $pw)));
-                }
-                if $prop == "C13" {
-                    $rec.sem = "C13";
-                    $rec.ev("btryfrom", vec![int(&x), ty.clone(), tag(stringify!($p))], || match <$p as TryFrom<$T>>::try_from(x) {
-                        Ok(v) => Out::Ok_(prim_enc_u(v as u128, $pw)),
-                        Err(_) => Out::Err_("TryFromIntError".to_string()),
-                    });
-                }
-            }
-        )*
-    };
-}
-
-macro_rules! prims_to_bnum {
-    ($rec:expr, $T:ty, $r:expr, $prop:expr, $count:expr; $($p:ident, $pw:literal, $ps:tt);*) => {
-        $(
-            {
-                let pn = ($pw / 8) as usize;
-                let vals = pair_values($r, pn, <$T as Bn>::W, $count);
-                let ty = Arg::Int { w: <$T as Bn>::W, s: <$T as Bn>::S, v: vec![] };
-                for b in vals.iter() {
-                    let mut full = [0u8; 16];
-                    let ext = if $ps && b[pn - 1] & 0x80 != 0 { 0xffu8 } else { 0 };
-                    for k in 0..16 {
-                        full[k] = if k < pn { b[k] } else { ext };
-                    }
-                    let pv = u128::from_le_bytes(full) as $p;
-                    let src = Arg::Int { w: $pw, s: $ps, v: b.clone() };
-                    if $prop == "C09" {
-                        $rec.sem = "C09";
-                        $rec.fam("as", vec![src.clone(), ty.clone(), tag(stringify!($p))]);
-                        $rec.form("as_", || val(As::as_::<$T>(pv)));
-                        $rec.form("cast_from", || val(<$T as CastFrom<$p>>::cast_from(pv)));
-                        $rec.form("asprimitive", || val(<$p as num_traits::AsPrimitive<$T>>::as_(pv)));
-                    }
-                    if $prop == "C13" && <$T as Bn>::W >= $pw {
-                        $rec.sem = "C13";
-                        prim_into!($rec, $T, $p, $ps, pv, src, ty);
-                    }
-                }
-            }
-        )*
-    };
-}
-
-// From / TryFrom from a primitive into a bnum integer at least as wide
-macro_rules! prim_into {
-    ($rec:expr, $T:ty, $p:ident, false, $pv:expr, $src:expr, $ty:expr) => {
-        // unsigned primitive: From<uN> exists for BUint and BInt; exercised when the value is representable
-        {
-            let fits = !<$T as Bn>::S || <$T as Bn>::W > <$p>::BITS || ($pv as u128) < (1u128 << (<$p>::BITS - 1));
-            if fits {
-                $rec.ev("from_prim", vec![$src.clone(), $ty.clone(), tag(stringify!($p))], || val(<$T as From<$p>>::from($pv)));
-            }
-        }
-    };
-    ($rec:expr, $T:ty, $p:ident, true, $pv:expr, $src:expr, $ty:expr) => {
-        signed_prim_into!($rec, $T, $p, $pv, $src, $ty);
-    };
-}
-trait SignedInto<P>: Sized {
-    fn go(p: P) -> Out;
-}
-macro_rules! signed_into_impls {
-    ($($p:ident),*) => {$(
-        impl<const N: usize> SignedInto<$p> for BUint<N> { fn go(p: $p) -> Out { res(<Self as TryFrom<$p>>::try_from(p)) } }
-        impl<const N: usize> SignedInto<$p> for BUintD32<N> { fn go(p: $p) -> Out { res(<Self as TryFrom<$p>>::try_from(p)) } }
-        impl<const N: usize> SignedInto<$p> for BUintD16<N> { fn go(p: $p) -> Out { res(<Self as TryFrom<$p>>::try_from(p)) } }
-        impl<const N: usize> SignedInto<$p> for BUintD8<N> { fn go(p: $p) -> Out { res(<Self as TryFrom<$p>>::try_from(p)) } }
-        impl<const N: usize> SignedInto<$p> for BInt<N> { fn go(p: $p) -> Out { Out::Ok_(<Self as From<$p>>::from(p).enc()) } }
-        impl<const N: usize> SignedInto<$p> for BIntD32<N> { fn go(p: $p) -> Out { Out::Ok_(<Self as From<$p>>::from(p).enc()) } }
-        impl<const N: usize> SignedInto<$p> for BIntD16<N> { fn go(p: $p) -> Out { Out::Ok_(<Self as From<$p>>::from(p).enc()) } }
-        impl<const N: usize> SignedInto<$p> for BIntD8<N> { fn go(p: $p) -> Out { Out::Ok_(<Self as From<$p>>::from(p).enc()) } }
-    )*};
-}
-signed_into_impls!(i8, i16, i32, i64, i128, isize);
-macro_rules! signed_prim_into {
-    ($rec:expr, $T:ty, $p:ident, $pv:expr, $src:expr, $ty:expr) => {
-        $rec.ev("tryfrom_prim", vec![$src.clone(), $ty.clone(), tag(stringify!($p))], || <$T as SignedInto<$p>>::go($pv));
-    };
-}
-
-trait CharInto: Sized {
-    fn go(c: char) -> Option<Out>;
-}
-macro_rules! char_into_impls {
-    ($($U:ident, $I:ident);*) => {$(
-        impl<const N: usize> CharInto for $U<N> { fn go(c: char) -> Option<Out> { Some(val(<Self as From<char>>::from(c))) } }
-        impl<const N: usize> CharInto for $I<N> { fn go(_c: char) -> Option<Out> { None } }
-    )*};
-}
-char_into_impls!(BUint, BInt; BUintD32, BIntD32; BUintD16, BIntD16; BUintD8, BIntD8);
-
-macro_rules! prim_body_one {
-    ($T:ty) => {
-        with_ctx(|c| {
-            let thorough = c.cli.tier == "thorough";
-            let prop = c.cli.prop.clone();
-            let n = (<$T as Bn>::W / 8) as usize;
-            let mut r = Rng::new(c.cli.seed ^ ((<$T as Bn>::W as u64) << 33) ^ (<$T as Bn>::S as u64) ^ 0x9911);
-            let mut rec = Rec::new();
-            // bnum -> primitives
-            let mut vals: Vec<B> = Vec::new();
-            for dw in [8u32, 16, 32, 64, 128] {
-                vals.extend(pair_values(&mut r, n, dw, 0));
-            }
-            let bnd = gen::boundary(n);
-            for _ in 0..(if thorough { 40 } else { 6 }) {
-                vals.push(gen::any(&mut r, n, &bnd));
-            }
-            vals.sort();
-            vals.dedup();
-            for b in vals.iter() {
-                let x = <$T as Bn>::dec(b);
-                prim_list!(bnum_to_prims; rec, $T, x, prop);
-            }
-            // primitives -> bnum
-            prim_list!(prims_to_bnum; rec, $T, &mut r, prop, if thorough { 40 } else { 10 });
-            // bool and char
-            let ty = Arg::Int { w: <$T as Bn>::W, s: <$T as Bn>::S, v: vec![] };
-            for bv in [false, true] {
-                let src = Arg::Int { w: 8, s: false, v: vec![bv as u8] };
-                if prop == "C09" {
-                    rec.sem = "C09";
-                    rec.fam("as", vec![src.clone(), ty.clone(), tag("bool")]);
-                    rec.form("as_", || val(As::as_::<$T>(bv)));
-                    rec.form("asprimitive", || val(<bool as num_traits::AsPrimitive<$T>>::as_(bv)));
-                }
-                if prop == "C13" {
-                    rec.sem = "C13";
-                    rec.ev("from_prim", vec![src.clone(), ty.clone(), tag("bool")], || val(<$T as From<bool>>::from(bv)));
-                }
-            }
-            for cv in ['\0', 'a', '\u{7f}', '\u{80}', '\u{ff}', '\u{100}', 'é', '\u{ffff}', '\u{10000}', '\u{d7ff}', '\u{e000}', '\u{10ffff}', '\u{fffd}'] {
-                let src = Arg::Int { w: 32, s: false, v: (cv as u32).to_le_bytes().to_vec() };
-                if prop == "C09" {
-                    rec.sem = "C09";
-                    rec.fam("as", vec![src.clone(), ty.clone(), tag("char")]);
-                    rec.form("as_", || val(As::as_::<$T>(cv)));
-                    rec.form("asprimitive", || val(<char as num_traits::AsPrimitive<$T>>::as_(cv)));
-                }
-                if prop == "C13" && <$T as Bn>::W >= 32 {
-                    rec.sem = "C13";
-                    if let Some(_) = <$T as CharInto>::go('a') {
-                        rec.ev("from_prim", vec![src.clone(), ty.clone(), tag("char")], || <$T as CharInto>::go(cv).unwrap());
-                    }
-                }
-            }
-            c.sink.merge(<$T as Bn>::W, <$T as Bn>::S, "bnum", vec![(label::<$T>(), rec)]);
-        });
-    };
-}
-
-// ----------------------------------------------------------------------------------------------
-// per-type events: reinterpretation, digits, slices, endianness, constants
-
-trait Digits: Bn {
-    const DBYTES: usize;
-    /// from_digits(ds), From<[digit; N]>, and the value composed from from_digit(d_i) << (i * digit bits)
-    fn digit_events(rec: &mut Rec, b: &B);
-}
-macro_rules! digits_impl {
-    ($U:ident, $I:ident, $D:ty) => {
-        impl<const N: usize> Digits for $U<N> {
-            const DBYTES: usize = core::mem::size_of::<$D>();
-            fn digit_events(rec: &mut Rec, b: &B) {
-                const SZ: usize = core::mem::size_of::<$D>();
-                let mut ds = [0 as $D; N];
-                for i in 0..N {
-                    let mut x = [0u8; SZ];
-                    x.copy_from_slice(&b[i * SZ..(i + 1) * SZ]);
-                    ds[i] = <$D>::from_le_bytes(x);
-                }
-                rec.sem = "C13";
-                rec.fam("from_digits", vec![bytes(b), nat(SZ as u128)]);
-                rec.form("from_digits", || val(Self::from_digits(ds)));
-                rec.form("from_array", || val(<Self as From<[$D; N]>>::from(ds)));
-                rec.form("into_array", || {
-                    let arr: [$D; N] = Self::from_digits(ds).into();
-                    Out::Val(arr.iter().flat_map(|d| d.to_le_bytes()).collect())
-                });
-                rec.form("digits_mut", || {
-                    let mut z = Self::ZERO;
-                    for (i, d) in z.digits_mut().iter_mut().enumerate() {
-                        *d = ds[i];
-                    }
-                    val(z)
-                });
-                rec.form("composed", || {
-                    let mut acc = Self::ZERO;
-                    for i in 0..N {
-                        acc = acc | (Self::from_digit(ds[i]) << ((i * SZ * 8) as u32));
-                    }
-                    val(acc)
-                });
-                let d0 = ds[0];
-                rec.ev("from_digit", vec![nat(d0 as u128)], || val(Self::from_digit(d0)));
-            }
-        }
-        impl<const N: usize> Digits for $I<N> {
-            const DBYTES: usize = core::mem::size_of::<$D>();
-            fn digit_events(_rec: &mut Rec, _b: &B) {}
-        }
-    };
-}
-digits_impl!(BUint, BInt, u64);
-digits_impl!(BUintD32, BIntD32, u32);
-digits_impl!(BUintD16, BIntD16, u16);
-digits_impl!(BUintD8, BIntD8, u8);
-
-fn slice_inputs(r: &mut Rng, n: usize, thorough: bool) -> Vec<Vec<u8>> {
-    let mut v: Vec<Vec<u8>> = Vec::new();
-    let pats: [u8; 5] = [0x00, 0x01, 0x7f, 0x80, 0xff];
-    if n <= 2 {
-        // exhaustive over the pattern alphabet for lengths 0..2n+2
-        for len in 0..=(2 * n + 2) {
-            let total = 5usize.pow(len as u32);
-            for mut code in 0..total {
-                let mut s = Vec::with_capacity(len);
-                for _ in 0..len {
-                    s.push(pats[code % 5]);
-                    code /= 5;
-                }
-                v.push(s);
-            }
-        }
-    } else {
-        let per = if thorough { 12 } else { 3 };
-        for len in 0..=(2 * n + 2) {
-            if !thorough && n > 24 && len > n + 10 && len < 2 * n && r.below(4) != 0 {
-                continue;
-            }
-            for _ in 0..per {
-                // value part random/extreme, excess part mostly pure padding with occasional impurities
-                let mut s: Vec<u8> = (0..len).map(|_| (r.next() & 0xff) as u8).collect();
-                let kind = r.below(6);
-                if len > 0 {
-                    let pad = *r.pick(&[0x00u8, 0xff]);
-                    let excess = len.saturating_sub(n);
-                    // "s" is built most-significant first here; callers reverse for little endian
-                    for k in 0..excess {
-                        s[k] = pad;
-                    }
-                    match kind {
-                        0 if excess > 0 => {
-                            let k = r.below(excess as u64) as usize;
-                            s[k] = *r.pick(&pats);
-                        }
-                        5 if excess > 1 => {
-                            // two blocks of padding, each pure but different: the outer block of the other padding byte
-                            let outer = 1 + r.below(excess as u64 - 1) as usize;
-                            let outer = if r.below(2) == 0 { (outer / 8).max(1) * 8 } else { outer }.min(excess - 1).max(1);
-                            for k in 0..outer {
-                                s[k] = !pad;
-                            }
-                        }
-                        1 if excess < len => {
-                            // make the sign bit of the value part agree / disagree with the padding
-                            s[excess] = if pad == 0xff { 0x80 | (s[excess] & 0x7f) } else { s[excess] & 0x7f };
-                        }
-                        2 if excess < len => {
-                            s[excess] = if pad == 0xff { s[excess] & 0x7f } else { 0x80 | s[excess] };
-                        }
-                        3 => {
-                            for x in s.iter_mut() {
-                                *x = *r.pick(&pats);
-                            }
-                        }
-                        _ => {}
-                    }
-                }
-                v.push(s);
-            }
-        }
-    }
-    v
-}
-
-trait Consts: Bn {
-    fn const_events(rec: &mut Rec);
-}
-macro_rules! consts_impl {
-    ($U:ident, $I:ident) => {
-        impl<const N: usize> Consts for $U<N> {
-            fn const_events(rec: &mut Rec) {
-                rec.sem = "C16";
-                rec.fam("consts", vec![]);
-                rec.form("BITS", || natv(Self::BITS as u128));
-                rec.form("BYTES", || natv(Self::BYTES as u128));
-                rec.form("MIN", || val(Self::MIN));
-                rec.form("MAX", || val(Self::MAX));
-                rec.form("ZERO", || val(Self::ZERO));
-                rec.form("ONE", || val(Self::ONE));
-                rec.form("TWO", || val(Self::TWO));
-                rec.form("THREE", || val(Self::THREE));
-                rec.form("FOUR", || val(Self::FOUR));
-                rec.form("FIVE", || val(Self::FIVE));
-                rec.form("SIX", || val(Self::SIX));
-                rec.form("SEVEN", || val(Self::SEVEN));
-                rec.form("EIGHT", || val(Self::EIGHT));
-                rec.form("NINE", || val(Self::NINE));
-                rec.form("TEN", || val(Self::TEN));
-                rec.form("DEFAULT", || val(<Self as Default>::default()));
-            }
-        }
-        impl<const N: usize> Consts for $I<N> {
-            fn const_events(rec: &mut Rec) {
-                rec.sem = "C16";
-                rec.fam("consts", vec![]);
-                rec.form("BITS", || natv(Self::BITS as u128));
-                rec.form("BYTES", || natv(Self::BYTES as u128));
-                rec.form("MIN", || val(Self::MIN));
-                rec.form("MAX", || val(Self::MAX));
-                rec.form("ZERO", || val(Self::ZERO));
-                rec.form("ONE", || val(Self::ONE));
-                rec.form("TWO", || val(Self::TWO));
-                rec.form("THREE", || val(Self::THREE));
-                rec.form("FOUR", || val(Self::FOUR));
-                rec.form("FIVE", || val(Self::FIVE));
-                rec.form("SIX", || val(Self::SIX));
-                rec.form("SEVEN", || val(Self::SEVEN));
-                rec.form("EIGHT", || val(Self::EIGHT));
-                rec.form("NINE", || val(Self::NINE));
-                rec.form("TEN", || val(Self::TEN));
-                rec.form("NEG_ONE", || val(Self::NEG_ONE));
-                rec.form("NEG_TWO", || val(Self::NEG_TWO));
-                rec.form("NEG_THREE", || val(Self::NEG_THREE));
-                rec.form("NEG_FOUR", || val(Self::NEG_FOUR));
-                rec.form("NEG_FIVE", || val(Self::NEG_FIVE));
-                rec.form("NEG_SIX", || val(Self::NEG_SIX));
-                rec.form("NEG_SEVEN", || val(Self::NEG_SEVEN));
-                rec.form("NEG_EIGHT", || val(Self::NEG_EIGHT));
-                rec.form("NEG_NINE", || val(Self::NEG_NINE));
-                rec.form("NEG_TEN", || val(Self::NEG_TEN));
-                rec.form("DEFAULT", || val(<Self as Default>::default()));
-            }
-        }
-    };
-}
-consts_impl!(BUint, BInt);
-consts_impl!(BUintD32, BIntD32);
-consts_impl!(BUintD16, BIntD16);
-consts_impl!(BUintD8, BIntD8);
-
-macro_rules! per_type_one {
-    ($T:ty, $rec:expr, $c:expr) => {{
-        let thorough = $c.cli.tier == "thorough";
-        let prop = $c.cli.prop.clone();
-        let n = (<$T as Bn>::W / 8) as usize;
-        let mut r = Rng::new($c.cli.seed ^ ((<$T as Bn>::W as u64) << 35) ^ 0x5151);
-        if prop == "C15" {
-            $rec.sem = "C15";
-            for s in slice_inputs(&mut r, n, thorough) {
-                // s is most significant first
-                let be = s.clone();
-                let mut le = s.clone();
-                le.reverse();
-                $rec.ev("from_be_slice", vec![bytes(&be)], || opt(<$T>::from_be_slice(&be)));
-                $rec.ev("from_le_slice", vec![bytes(&le)], || opt(<$T>::from_le_slice(&le)));
-            }
-            for b in gen::values(&mut r, n, if thorough { 60 } else { 14 }) {
-                let x = <$T as Bn>::dec(&b);
-                $rec.fam("endian", vec![int(&x), tag(if cfg!(target_endian = "little") { "little" } else { "big" })]);
-                $rec.form("to_be", || val(x.to_be()));
-                $rec.form("to_le", || val(x.to_le()));
-                $rec.form("from_be", || val(<$T>::from_be(x)));
-                $rec.form("from_le", || val(<$T>::from_le(x)));
-            }
-        }
-        if prop == "C13" {
-            for b in gen::values(&mut r, n, if thorough { 40 } else { 10 }) {
-                <$T as Digits>::digit_events(&mut *$rec, &b);
-            }
-        }
-        if prop == "C16" {
-            <$T as Consts>::const_events(&mut *$rec);
-        }
-    }};
-}
-
-macro_rules! reinterpret {
-    ($U:ty, $I:ty, $ru:expr, $ri:expr, $c:expr) => {{
-        if $c.cli.prop == "C09" {
-            let n = (<$U as Bn>::W / 8) as usize;
-            let mut r = Rng::new($c.cli.seed ^ ((<$U as Bn>::W as u64) << 36) ^ 0x7171);
-            for b in gen::values(&mut r, n, if $c.cli.tier == "thorough" { 60 } else { 14 }) {
-                let u = <$U as Bn>::dec(&b);
-                let i = <$I as Bn>::dec(&b);
-                $ru.sem = "C09";
-                $ri.sem = "C09";
-                $ru.ev("cast_signed", vec![int(&u)], || val(u.cast_signed()));
-                $ri.fam("reinterpret", vec![int(&i)]);
-                $ri.form("cast_unsigned", || val(i.cast_unsigned()));
-                $ri.form("to_bits", || val(i.to_bits()));
-                $ri.form("as_bits", || val(*i.as_bits()));
-                $ru.ev("from_bits", vec![int(&u)], || val(<$I>::from_bits(u)));
-            }
-        }
-    }};
-}
-
-trait PerType: Bn {
-    fn per_type(rec: &mut Rec, c: &Ctx);
-}
-macro_rules! per_type_impl {
-    ($($F:ident),*) => {$(
-        impl<const N: usize> PerType for $F<N> {
-            fn per_type(rec: &mut Rec, c: &Ctx) {
-                per_type_one!($F<N>, rec, c);
-            }
-        }
-    )*};
-}
-per_type_impl!(BUint, BInt, BUintD32, BIntD32, BUintD16, BIntD16, BUintD8, BIntD8);
-trait Reinterp: Bn {
-    fn reinterpret(ru: &mut Rec, ri: &mut Rec, c: &Ctx);
-}
-macro_rules! reinterp_impl {
-    ($($U:ident, $I:ident);*) => {$(
-        impl<const N: usize> Reinterp for $U<N> {
-            fn reinterpret(ru: &mut Rec, ri: &mut Rec, c: &Ctx) {
-                reinterpret!($U<N>, $I<N>, ru, ri, c);
-            }
-        }
-    )*};
-}
-reinterp_impl!(BUint, BInt; BUintD32, BIntD32; BUintD16, BIntD16; BUintD8, BIntD8);
-
-macro_rules! per_type {
-    ($w:literal; $(($U:ty, $I:ty)),+) => {
-        with_ctx(|c| {
-            if c.cli.only_width.map_or(true, |x| x == $w) {
-                let mut us: Vec<(&'static str, Rec)> = Vec::new();
-                let mut is: Vec<(&'static str, Rec)> = Vec::new();
-                $(
-                    {
-                        let mut ru = Rec::new();
-                        let mut ri = Rec::new();
-                        <$U as PerType>::per_type(&mut ru, c);
-                        <$I as PerType>::per_type(&mut ri, c);
-                        <$U as Reinterp>::reinterpret(&mut ru, &mut ri, c);
-                        if c.cli.prop == "C13" {
-                            // digit arrays differ per digit type: not merged
-                            c.sink.merge($w, false, "bnum", vec![(label::<$U>(), ru)]);
-                            c.sink.merge($w, true, "bnum", vec![(label::<$I>(), ri)]);
-                        } else {
-                            us.push((<$U as Bn>::DT, ru));
-                            is.push((<$I as Bn>::DT, ri));
-                        }
-                    }
-                )+
-                c.sink.merge($w, false, "bnum", us);
-                c.sink.merge($w, true, "bnum", is);
-            }
-        });
-    };
-}
-
-trait PrimConv: Bn {
-    fn prim_events();
-}
-macro_rules! prim_conv_impl {
-    ($($F:ident),*) => {$(
-        impl<const N: usize> PrimConv for $F<N> {
-            fn prim_events() {
-                prim_body_one!($F<N>);
-            }
-        }
-    )*};
-}
-prim_conv_impl!(BUint, BInt, BUintD32, BIntD32, BUintD16, BIntD16, BUintD8, BIntD8);
-macro_rules! prim_body {
-    ($w:literal; $(($U:ty, $I:ty)),+) => {
-        $(
-            if with_width($w) {
-                <$U as PrimConv>::prim_events();
-                <$I as PrimConv>::prim_events();
-            }
-        )+
-    };
-}
-fn with_width(w: u32) -> bool {
-    let mut ok = true;
-    with_ctx(|c| ok = c.cli.only_width.map_or(true, |x| x == w));
-    ok
-}
-
-// narrow/wide commutation: zero-/sign-extending the operands into a wider type commutes with every
-// value-level operation whose exact result is representable in the narrower type
-macro_rules! nw_pair {
-    ($S:ty, $D:ty) => {
-        with_ctx(|c| {
-            let thorough = c.cli.tier == "thorough";
-            let n = (<$S as Bn>::W / 8) as usize;
-            let mut r = Rng::new(c.cli.seed ^ ((<$S as Bn>::W as u64) << 37) ^ ((<$D as Bn>::W as u64) << 17) ^ 0x1616 ^ (<$S as Bn>::S as u64));
-            let mut rec = Rec::new();
-            rec.sem = "C16";
-            let ty = Arg::Int { w: <$D as Bn>::W, s: <$D as Bn>::S, v: vec![] };
-            let mut ps = gen::pairs(&mut r, n, if thorough { 300 } else { 40 });
-            // small operands so that products, powers and shifts are often representable in the narrow type
-            for _ in 0..(if thorough { 200 } else { 30 }) {
-                let k = 1 + r.below(n as u64) as usize;
-                let a = gen::fit(&gen::short(&mut r, k.min(n)), n);
-                let b = gen::small(n, r.below(70));
-                ps.push((if r.below(3) == 0 { gen::negate(&a) } else { a }, if r.below(4) == 0 { gen::negate(&b) } else { b }));
-            }
-            for (ab, bb) in ps.iter() {
-                let a = <$S as Bn>::dec(ab);
-                let b = <$S as Bn>::dec(bb);
-                let wa: $D = As::as_::<$D>(a);
-                let wb: $D = As::as_::<$D>(b);
-                let e: u32 = (bb[0] as u32) % 67;
-                let sh: u32 = (bb[0] as u32) % <$S as Bn>::W;
-                rec.fam("nw", vec![int(&a), int(&b), ty.clone(), nat(e as u128), nat(sh as u128)]);
-                rec.form("cast_a", || val(wa));
-                rec.form("cast_b", || val(wb));
-                rec.form("add_n", || opt(a.checked_add(b)));
-                rec.form("add_w", || opt(wa.checked_add(wb)));
-                rec.form("sub_n", || opt(a.checked_sub(b)));
-                rec.form("sub_w", || opt(wa.checked_sub(wb)));
-                rec.form("mul_n", || opt(a.checked_mul(b)));
-                rec.form("mul_w", || opt(wa.checked_mul(wb)));
-                rec.form("div_n", || opt(a.checked_div(b)));
-                rec.form("div_w", || opt(wa.checked_div(wb)));
-                rec.form("rem_n", || opt(a.checked_rem(b)));
-                rec.form("rem_w", || opt(wa.checked_rem(wb)));
-                rec.form("pow_n", || opt(a.checked_pow(e)));
-                rec.form("pow_w", || opt(wa.checked_pow(e)));
-                rec.form("shl_n", || val(a.wrapping_shl(sh)));
-                rec.form("shl_w", || val(wa.wrapping_shl(sh)));
-                rec.form("cmp_n", || ordv(Ord::cmp(&a, &b)));
-                rec.form("cmp_w", || ordv(Ord::cmp(&wa, &wb)));
-                rec.form("str_n", || bytesv(a.to_string().as_bytes()));
-                rec.form("str_w", || bytesv(wa.to_string().as_bytes()));
-                rec.form("parse_w", || match a.to_string().parse::<$D>() {
-                    Ok(v) => val(v),
-                    Err(_) => Out::Err_("parse".to_string()),
-                });
-            }
-            let lab: &'static str = Box::leak(format!("{}>{}", label::<$S>(), label::<$D>()).into_boxed_str());
-            c.sink.merge(<$S as Bn>::W, <$S as Bn>::S, "bnum", vec![(lab, rec)]);
-        });
-    };
-}
-macro_rules! nw_fns {
-    ($($name:ident: $SU:ty, $SI:ty => $DU:ty, $DI:ty);*) => {
-        $(
-            fn $name() {
-                nw_pair!($SU, $DU);
-                nw_pair!($SI, $DI);
-            }
-        )*
-        fn nw_all() {
-            $( $name(); )*
-        }
-    };
-}
-nw_fns!(
-    nw1: BUintD8<1>, BIntD8<1> => BUintD8<2>, BIntD8<2>;
-    nw2: BUintD8<1>, BIntD8<1> => BUint<1>, BInt<1>;
-    nw3: BUintD8<3>, BIntD8<3> => BUintD16<2>, BIntD16<2>;
-    nw4: BUintD8<3>, BIntD8<3> => BUint<1>, BInt<1>;
-    nw5: BUintD16<1>, BIntD16<1> => BUintD32<1>, BIntD32<1>;
-    nw6: BUintD32<1>, BIntD32<1> => BUint<2>, BInt<2>;
-    nw7: BUint<1>, BInt<1> => BUint<2>, BInt<2>;
-    nw8: BUint<1>, BInt<1> => BUintD8<9>, BIntD8<9>;
-    nw9: BUintD32<3>, BIntD32<3> => BUint<2>, BInt<2>;
-    nw10: BUint<2>, BInt<2> => BUint<3>, BInt<3>;
-    nw11: BUintD8<17>, BIntD8<17> => BUint<3>, BInt<3>;
-    nw12: BUint<3>, BInt<3> => BUint<4>, BInt<4>;
-    nw13: BUintD16<3>, BIntD16<3> => BUintD32<2>, BIntD32<2>;
-    nw14: BUint<2>, BInt<2> => BUintD32<5>, BIntD32<5>;
-    nw15: BUintD32<2>, BIntD32<2> => BUintD16<12>, BIntD16<12>;
-    nw16: BUint<4>, BInt<4> => BUint<8>, BInt<8>
-);
-
-// As between the primitive integers themselves (bnum defines these "for consistency")
-macro_rules! prim_prim_inner {
-    ($rec:expr, $r:expr, $s:ident, $sw:literal, $ss:tt; $($d:ident, $dw:literal, $ds:tt);*) => {
-        $(
-            {
-                let pn = $sw / 8;
-                for b in pair_values($r, pn, $dw, 0) {
-                    let mut full = [0u8; 16];
-                    let ext = if $ss && b[pn - 1] & 0x80 != 0 { 0xffu8 } else { 0 };
-                    for k in 0..16 {
-                        full[k] = if k < pn { b[k] } else { ext };
-                    }
-                    let pv = u128::from_le_bytes(full) as $s;
-                    $rec.sem = "C09";
-                    $rec.fam("as", vec![Arg::Int { w: $sw, s: $ss, v: b.clone() }, Arg::Int { w: $dw, s: $ds, v: vec![] }, tag(concat!(stringify!($s), ">", stringify!($d)))]);
-                    $rec.form("as_", || Out::Val(prim_enc_u(As::as_::<$d>(pv) as u128, $dw)));
-                    $rec.form("cast_from", || Out::Val(prim_enc_u(<$d as CastFrom<$s>>::cast_from(pv) as u128, $dw)));
-                }
-            }
-        )*
-    };
-}
-macro_rules! prim_prim_outer {
-    ($rec:expr, $r:expr; $($s:ident, $sw:literal, $ss:tt);*) => {
-        $( prim_list!(prim_prim_inner; $rec, $r, $s, $sw, $ss); )*
-    };
-}
-fn prim_prim_events() {
-    with_ctx(|c| {
-        if c.cli.only_width.is_some() {
-            return;
-        }
-        let mut rec = Rec::new();
-        let mut r = Rng::new(c.cli.seed ^ 0x9090);
-        prim_list!(prim_prim_outer; rec, &mut r);
-        c.sink.merge(0, false, "bnum", vec![("prim", rec)]);
-    });
-}
-
-/// the type aliases have exactly the named widths
-fn alias_events() {
-    use bnum::types::*;
-    with_ctx(|c| {
-        let mut rec = Rec::new();
-        rec.sem = "C16";
-        macro_rules! alias {
-            ($($bits:literal $u:ident $i:ident);*) => {$(
-                rec.fam("alias", vec![nat($bits)]);
-                rec.form("U_BITS", || natv(<$u>::BITS as u128));
-                rec.form("I_BITS", || natv(<$i>::BITS as u128));
-                rec.form("U_BYTES", || natv(<$u>::BYTES as u128));
-                rec.form("I_BYTES", || natv(<$i>::BYTES as u128));
-                rec.form("U_MAX_ONES", || natv(<$u>::MAX.count_ones() as u128));
-                rec.form("I_MIN_TZ", || natv(<$i>::MIN.trailing_zeros() as u128));
-                rec.form("I_NEG_ONE_ONES", || natv(<$i>::NEG_ONE.count_ones() as u128));
-            )*};
-        }
-        alias!(128 U128 I128; 256 U256 I256; 512 U512 I512; 1024 U1024 I1024; 2048 U2048 I2048; 4096 U4096 I4096; 8192 U8192 I8192);
-        c.sink.merge(0, false, "bnum", vec![("u64", rec)]);
-    });
-}
-
-fn main() {
-    install_hook();
-    let cli = parse_cli();
-    let prop = cli.prop.clone();
-    let sink = Sink::new(&cli.out, &prop);
-    CTX.with(|c| *c.borrow_mut() = Some(Ctx { cli, sink }));
-    match prop.as_str() {
-        "C09" => {
-            pair_types!(for_pairs; pair_body);
-            for_matrix!(prim_body);
-            for_matrix!(per_type);
-            for_giants!(prim_body);
-            prim_prim_events();
-            asprim_family!(BUint, BInt; BUintD32, BIntD32; BUintD16, BIntD16; BUintD8, BIntD8);
-        }
-        "C13" => {
-            pair_types!(for_pairs; pair_body);
-            for_matrix!(prim_body);
-            for_matrix!(per_type);
-            for_giants!(prim_body);
-        }
-        "C15" => {
-            for_matrix!(per_type);
-        }
-        "C16" => {
-            for_matrix!(per_type);
-            alias_events();
-            nw_all();
-            pair_types!(for_pairs; pair_body);
-        }
-        p => panic!("unknown property {}", p),
-    }
-    let ctx = CTX.with(|c| c.borrow_mut().take().unwrap());
-    let (n, splits) = ctx.sink.finish();
-    eprintln!("recorded {} events, {} digit-type splits, mode {}", n, splits, MODE);
-}
+include!("../drv/conv.rs");
